@@ -240,6 +240,8 @@ class Run:
                 counters[k] = counters.get(k, 0) + v
             if r.get("skipped"):
                 skipped += 1
+            for why in r.get("inconclusive", []):
+                self.inconclusive.append("%s: %s" % (r["id"], why))
             shapes.update(r.get("shapes", []))
             nevals += max(1, r.get("evaluations", 0))
             for v in r["violations"]:
